@@ -1,5 +1,227 @@
 import Sentinel.Drv.Common
-/-! Driver for C11 (stub: replaced by the property's real driver) -/
+import Sentinel.Model.WarmUp
+/-!
+Driver for C11.
+
+* `model`  — the code-shaped model `Sentinel.WU` with the `Float` carrier (bit-exact with Go);
+* `exact`  — the same definitions with the `Rat` carrier (what the theorems are about); used by the
+             check to measure how often a rounding could flip a decision;
+* `oracle` — judges an implementation trace against the envelope claims of the property, using the
+             exact carrier for the calculator's fields and the known-finding classifiers.
+
+Ops: `clock <ms>` · `load wu <f:T> <periodSec> <coldFactor> <statIntervalMs>` ·
+`load ma <lowThr> <highThr> <lowMark> <highMark> <statIntervalMs>` · `mem <bytes|-1>` ·
+`req <n> <batch>` (n sequential `Entry`+`Exit` at this instant ⇒ number admitted) · `sum` (pass sum of the
+resource's default 1 s view).
+-/
 namespace Sentinel.Drv.C11
-def run (_mode : String) : IO Unit := IO.eprintln "C11: driver not implemented"
+open Sentinel.LA Sentinel.WU Sentinel.Drv
+
+/-- exact value of a finite float64 bit pattern -/
+def ratOfBits (n : Nat) : Option Rat :=
+  let neg : Bool := n / 2^63 % 2 = 1
+  let e : Nat := n / 2^52 % 2048
+  let m : Nat := n % 2^52
+  let mag : Option Rat :=
+    if e = 2047 then none
+    else if e = 0 then some ((m : Rat) / ((2^1074 : Nat) : Rat))
+    else
+      let sig : Nat := 2^52 + m
+      if 1075 ≤ e then some ((sig * 2^(e - 1075) : Nat) : Rat)
+      else some ((sig : Rat) / ((2^(1075 - e) : Nat) : Rat))
+  mag.map fun q => if neg then -q else q
+
+def parseRat? (s : String) : Option Rat :=
+  if s.startsWith "f:" then (parseHex? (s.drop 2).toString).bind ratOfBits else none
+
+/-- the machine's total memory is not modelled: generated water marks stay far below it -/
+def totalMem : Int := 2^62
+
+/-- `generateStatFor`: the read view of a rule with `StatIntervalInMs = iv` over the default node geometry;
+    `none` = a standalone statistic would be created (not modelled: never generated) or the parameters are illegal -/
+def viewOf (iv : Nat) : Option (Nat × Nat) :=
+  if iv = 0 ∨ iv = 1000 then some (2, 1000)
+  else
+    let sc := if iv > nodeN * nodeL then 1 else if iv < nodeL then 1 else if iv % nodeL = 0 then iv / nodeL else 1
+    if validView sc iv nodeN (nodeN * nodeL) = 0 then some (sc, iv) else none
+
+structure St (α : Type) where
+  sys : Sys α := {}
+  now : Nat := 0
+  loaded : Bool := false
+
+def step {α} [Carrier α] (parseT : String → Option α) (neg : α → Bool)
+    (s : St α) (ts : List String) (_ : String) : St α × Option String :=
+  match ts with
+  | ["clock", t] => match t.toNat? with
+      | some t => if s.now ≤ t then ({ s with now := t }, none) else (s, some "bad-op")
+      | none => (s, some "bad-op")
+  | ["load", "wu", T, p, cf, iv] => match parseT T, p.toNat?, cf.toNat?, iv.toNat? with
+      | some T, some p, some cf, some iv =>
+        if s.loaded then (s, some "bad-op") else
+        match viewOf iv with
+        | none => (s, some "bad-op")
+        | some (sc, Iv) =>
+          -- `IsValidRule`: negative threshold, zero period, cold factor 1 are rejected (the rule is dropped)
+          if neg T || p = 0 || cf = 1 then ({ s with loaded := true }, some "ok 0")
+          else ({ s with sys := loadWarmUp s.sys s.now T p cf sc Iv, loaded := true }, some "ok 1")
+      | _, _, _, _ => (s, some "bad-op")
+  | ["load", "ma", lt, ht, lm, hm, iv] => match lt.toInt?, ht.toInt?, lm.toInt?, hm.toInt?, iv.toNat? with
+      | some lt, some ht, some lm, some hm, some iv =>
+        if s.loaded then (s, some "bad-op") else
+        match viewOf iv with
+        | none => (s, some "bad-op")
+        | some (sc, Iv) =>
+          let m : MemCfg := { lowT := lt, highT := ht, lowM := lm, highM := hm }
+          if !m.valid totalMem then ({ s with loaded := true }, some "ok 0")
+          else ({ s with sys := loadAdaptive s.sys s.now m sc Iv, loaded := true }, some "ok 1")
+      | _, _, _, _, _ => (s, some "bad-op")
+  | ["mem", x] => match x.toInt? with
+      | some x => ({ s with sys := { s.sys with mem := x } }, none)
+      | none => (s, some "bad-op")
+  | ["req", n, b] => match n.toNat?, b.toNat? with
+      | some n, some b =>
+        let (sys', k) := reqs s.sys s.now b n
+        ({ s with sys := sys' }, some (toString k))
+      | _, _ => (s, some "bad-op")
+  | ["sum"] => match s.sys.arr with
+      | none => (s, some "-")
+      | some a => (s, some (toString (vSum a 1000 s.now .pass)))
+  | _ => (s, some "bad-op")
+
+/-! ## oracle: judge an implementation trace against the envelope claims -/
+
+structure OSt where
+  sys : Sys Rat := {}
+  now : Nat := 0
+  loaded : Bool := false
+  period : Nat := 0
+  lastPass : Option Nat := none        -- time of the last admitted request
+  sat : Option (Nat × Nat) := none      -- (first, last) second of the current run of aligned saturating bursts
+
+/-- guard band around decision boundaries where a last-ulp rounding of the float expression could flip a decision -/
+def eps : Rat := 1 / 1000000000
+
+/-- number of `batch`-sized requests that fit under `thr` on top of `cur` (at most `n`) -/
+def fit (thr : Rat) (cur batch n : Nat) : Nat :=
+  if batch = 0 then (if (cur : Rat) ≤ thr then n else 0)
+  else if thr < (cur : Rat) then 0 else min n ((thr - cur).floor.toNat / batch)
+
+/-- whole seconds without any admitted request after which an idle bucket has been refilled to `maxToken`
+    (refill is `⌊T⌋` tokens per polled second at least) -/
+def idleSecs (c : Cfg Rat) : Nat := c.max / (c.T.floor.toNat) + 3
+
+def oracleReq (s : OSt) (n b k : Nat) : OSt × String :=
+  let sys0 := s.sys.touch s.now
+  match sys0.arr with
+  | none => (s, "?")
+  | some a =>
+    let commit (tk : Tok) : OSt :=
+      let a1 := if k > 0 then (addAt a s.now (evBucket .pass (k * b))).1 else a
+      let a2 := if k < n then (addAt a1 s.now (evBucket .block ((n - k) * b))).1 else a1
+      { s with sys := { sys0 with arr := some a2, tok := tk }, lastPass := if k > 0 then some s.now else s.lastPass }
+    if k > n then (commit sys0.tok, "bad admitted-more-than-requested") else
+    match sys0.rule with
+    | none => (commit sys0.tok, if k = n then "ok" else "bad blocked-without-rule")
+    | some (.adaptive m, _, Iv) =>
+      let W := vSum a Iv s.now .pass
+      let thr : Rat := memAllowed m sys0.mem
+      let lo := fit (thr * (1 - eps)) W b n
+      let hi := fit (thr * (1 + eps)) W b n
+      -- envelope first (these hold whatever the interpolation does), then the exact value
+      let r :=
+        if k > 0 ∧ (m.lowT : Rat) < ((W + k * b : Nat) : Rat) then "bad above-low-memory-threshold"
+        else if k < n ∧ ((W + (k + 1) * b : Nat) : Rat) ≤ (m.highT : Rat) then "bad below-high-memory-threshold"
+        else if lo ≤ k ∧ k ≤ hi then "ok"
+        else "bad adaptive-threshold"
+      (commit sys0.tok, r)
+    | some (.warmup c, sc, Iv) =>
+      let W := vSum a Iv s.now .pass
+      let tk := sync c sys0.tok s.now (prevQps a sc Iv s.now)
+      let nan := Known.degenerateNaN c
+      let total : Rat := ((W + k * b : Nat) : Rat)
+      let idle : Bool := match s.lastPass with
+        | none => true
+        | some t => decide (t + (max (idleSecs c) (Iv / 1000 + 2)) * 1000 ≤ s.now)
+      -- the threshold in force is observably below T: a request was refused although it would have fitted under T
+      let notFull : Bool := decide (k < n) && decide (((W + (k + 1) * b : Nat) : Rat) ≤ c.T)
+      -- run of consecutive seconds each holding exactly one aligned burst of single-token requests that was cut off
+      let sec := s.now / 1000
+      let aligned : Bool := decide (s.now % 1000 = 0) && decide (b = 1) && decide (k < n) && decide (Iv = 1000)
+      let sat : Option (Nat × Nat) :=
+        if !aligned then none else
+        match s.sat with
+        | some (s0, sl) => if sl + 1 = sec then some (s0, sec) else if sl = sec then none else some (sec, sec)
+        | none => some (sec, sec)
+      let elapsed : Nat := match sat with | some (s0, _) => sec - s0 | none => 0
+      let r :=
+        -- (a) the admitted rate never exceeds the configured threshold
+        if k > 0 ∧ c.T < total then (if nan then "known:warmup-nan" else "bad above-threshold")
+        -- (b) after the resource has been idle the first window admits no more than T/cf
+        else if k > 0 ∧ idle ∧ c.T / c.cf * (1 + eps) < total then
+          (if nan then "known:warmup-nan"
+           else if tk.tokens = c.warn then "known:warmup-stuck-at-warning"
+           else if Known.starves c then "known:warmup-starvation"
+           else "bad cold-start-above-T/cf")
+        -- (c) a single-token demand is not starved when the threshold is at least one
+        else if k = 0 ∧ n > 0 ∧ b = 1 ∧ W = 0 ∧ 1 ≤ c.T then
+          (if Known.starves c then "known:warmup-starvation"
+           else if nan then "bad starved"
+           else if (c.cf : Rat) * (1 + eps) ≤ c.T ∨ c.warn = 0 then "bad starved"
+           else "?")
+        -- (d) after sustained (saturating, second-aligned) demand for the warm-up period the threshold is the full T
+        else if notFull ∧ sat.isSome ∧ s.period ≤ elapsed ∧ !nan ∧ (c.cf : Rat) ≤ c.T then
+          (if c.max - c.warn + 2 ≤ elapsed then "bad full-threshold-not-reached" else "known:warmup-late-ramp")
+        else "ok"
+      ({ commit tk with sat := sat }, r)
+
+def ostep (s : OSt) (ts : List String) (line : String) : OSt × Option String :=
+  let res := (resPart line).getD ""
+  match ts with
+  | ["clock", t] => match t.toNat? with
+      | some t => if s.now ≤ t then ({ s with now := t }, none) else (s, some "bad-op")
+      | none => (s, some "bad-op")
+  | ["load", "wu", T, p, cf, iv] => match parseRat? T, p.toNat?, cf.toNat?, iv.toNat? with
+      | some T, some p, some cf, some iv =>
+        if s.loaded then (s, some "bad-op") else
+        match viewOf iv with
+        | none => (s, some "bad-op")
+        | some (sc, Iv) =>
+          let valid := !(decide (T < 0) || p = 0 || cf = 1)
+          let s' := if valid then { s with sys := loadWarmUp s.sys s.now T p cf sc Iv, loaded := true, period := p }
+                    else { s with loaded := true }
+          (s', some (if res = (if valid then "ok 1" else "ok 0") then "ok" else "bad rule-validity"))
+      | _, _, _, _ => (s, some "bad-op")
+  | ["load", "ma", lt, ht, lm, hm, iv] => match lt.toInt?, ht.toInt?, lm.toInt?, hm.toInt?, iv.toNat? with
+      | some lt, some ht, some lm, some hm, some iv =>
+        if s.loaded then (s, some "bad-op") else
+        match viewOf iv with
+        | none => (s, some "bad-op")
+        | some (sc, Iv) =>
+          let m : MemCfg := { lowT := lt, highT := ht, lowM := lm, highM := hm }
+          let valid := m.valid totalMem
+          let s' := if valid then { s with sys := loadAdaptive s.sys s.now m sc Iv, loaded := true }
+                    else { s with loaded := true }
+          (s', some (if res = (if valid then "ok 1" else "ok 0") then "ok" else "bad rule-validity"))
+      | _, _, _, _, _ => (s, some "bad-op")
+  | ["mem", x] => match x.toInt? with
+      | some x => ({ s with sys := { s.sys with mem := x } }, none)
+      | none => (s, some "bad-op")
+  | ["req", n, b] => match n.toNat?, b.toNat? with
+      | some n, some b => match res.toNat? with
+        | some k => let (s', r) := oracleReq s n b k; (s', some r)
+        | none => (s, some ("bad not-a-count " ++ res))
+      | _, _ => (s, some "bad-op")
+  | ["sum"] => match s.sys.arr with
+      | none => (s, some (if res = "-" then "ok" else "bad sum"))
+      | some a => (s, some (if res = toString (vSum a 1000 s.now .pass) then "ok" else "bad sum"))
+  | _ => (s, some "bad-op")
+
+def run (mode : String) : IO Unit :=
+  if mode == "oracle" then loop ({} : OSt) ostep
+  else if mode == "exact" then
+    loop ({} : St Rat) (step parseRat? (fun q => decide (q < 0)))
+  else
+    loop ({} : St Float) (step parseFbits? (fun x => decide (x < 0)))
+
 end Sentinel.Drv.C11
